@@ -85,6 +85,7 @@ func main() {
 	}
 	fmt.Printf("loaded %d packages, %d function bodies in %.1fs (fixtures=%v)\n", len(p.Pkgs), len(p.AllFuncs), p.LoadSecs, p.Fixtures)
 	code := 0
+	sibCache := map[string]*Ctx{}
 	for _, id := range ids {
 		tp := time.Now()
 		if len(ids) == 1 {
@@ -102,6 +103,7 @@ func main() {
 			}()
 			props[id](c)
 		}()
+		importShared(c, p, *tier, sibCache)
 		if *tier == "thorough" && os.Getenv("VERIF_MUTANT_DIR") == "" && len(id) == 3 {
 			c.SelfTest = runSelfTest(id, abs, *verif)
 			c.Robust = runRenameRobustness(p, id, abs, *verif)
@@ -117,4 +119,59 @@ func main() {
 		}
 	}
 	os.Exit(code)
+}
+
+// sharedRules: rules that are a necessary condition of more than one property are decided once, by the property whose code
+// they are anchored in, and imported (re-labelled) into the other properties they bind — a change that breaks property X
+// must be reported by X's own check, not only by a neighbour's. The pairs were read off the seeded changes that used to be
+// reported by a neighbouring property only (DESIGN §10).
+var sharedRules = map[string]map[string][]string{
+	"C02": {"C05": {"memory-mutation-last"}},
+	"C03": {"C01": {"commit-nodes"}, "C08": {"cache-coherence"}},
+	"C04": {"C03": {"history-pairing", "every-entry"}, "C09": {"cache-invalidate", "reorg"}},
+	"C05": {"C16": {"floor-first", "marker-with-history"}, "C09": {"reorg", "cache-invalidate"}, "C08": {"cache-coherence"}},
+	"C06": {"C02": {"verify-success"}},
+	"C07": {"C08": {"index-every-tx"}},
+	"C08": {"C03": {"every-entry", "gates", "history-pairing"}},
+	"C13": {"C14": {"min-over-all-refs"}},
+	"C17": {"C08": {"atomic-check-then-store"}},
+}
+
+func importShared(c *Ctx, p *Prog, tier string, cache map[string]*Ctx) {
+	sibs := sharedRules[c.Prop]
+	var names []string
+	for sib := range sibs {
+		names = append(names, sib)
+	}
+	sort.Strings(names)
+	for _, sib := range names {
+		sc := cache[sib]
+		if sc == nil {
+			sc = &Ctx{P: p, Prop: sib, Tier: tier}
+			func() {
+				defer func() {
+					if r := recover(); r != nil {
+						sc.und("analyzer-panic", sib, "", fmt.Sprintf("analyzer panicked: %v", r))
+					}
+				}()
+				props[sib](sc)
+			}()
+			cache[sib] = sc
+		}
+		want := map[string]bool{}
+		for _, r := range sibs[sib] {
+			want[sib+"/"+r] = true
+		}
+		n := 0
+		for _, o := range sc.Obs {
+			if !want[o.Rule] && o.Rule != sib+"/analyzer-panic" {
+				continue
+			}
+			o.Rule = c.Prop + "/" + strings.TrimPrefix(o.Rule, sib+"/")
+			o.Msg += " [rule shared with " + sib + "]"
+			c.Obs = append(c.Obs, o)
+			n++
+		}
+		c.note("imported %d obligations of %s rules %v (necessary conditions shared with this property)", n, sib, sibs[sib])
+	}
 }
